@@ -35,7 +35,7 @@ PY
 detect)
   id=$1; prop=$2; tier=${3:-quick}
   cd /verif
-  git -C /repo apply /verif/seeded/$id/patch.diff || { echo "APPLY FAILED"; exit 2; }
+  git -C /repo apply /verif/seeded/$id/patch.diff 2>/dev/null || (cd /repo && patch -p1 -s -F3 < /verif/seeded/$id/patch.diff) || { echo "APPLY FAILED"; git -C /repo checkout -- .; exit 2; }
   out=$(timeout 3000 bin/check $prop --tier $tier 2>&1); rc=$?
   git -C /repo checkout -- .
   echo "$out" | grep -E "VIOLATION|KNOWN-FINDING|CHECK-BROKEN" | cut -c1-400
